@@ -211,7 +211,9 @@ pub fn run(ctx: &Ctx) -> &'static str {
     ctx.assume("score_i = floor(window/(in-flight+queued+1)) x phase weight (warming 0.8) x quality multiplier actually used (read through the hook accessor; checked against the documented formula whenever it was refreshed at this instant, and to be < 50 ms old otherwise) x clamp((target-measured)/target, 0.1, 1) x 0.02 if weak/loss-degraded while an unconstrained link exists");
     ctx.assume("'over its in-flight cap' is the code's public predicate in_flight_cap_exceeded; float comparisons use a 1e-9 relative band inside which both outcomes are accepted");
     for (file, body) in ctx.replay_files() {
-        if !ctx.replay_case::<SelCase, _>("states", &file, &body, check) {
+        if !ctx.replay_case::<SelCase, _>("states", &file, &body, check)
+            && !ctx.replay_case::<crate::props::decide::Case, _>("glue", &file, &body, |c, o| crate::props::decide::check(c, o, crate::props::decide::Which::C11, ctx))
+        {
             eprintln!("replay {}: unknown part", file.display());
         }
     }
@@ -225,6 +227,14 @@ pub fn run(ctx: &Ctx) -> &'static str {
         ctx.tier.pick(200_000, 3_000_000),
         || strategy(mo, Some(false)),
         |_| check,
+    );
+    let mo2 = ctx.tier.pick(50, 100);
+    ctx.explore(
+        "glue",
+        "the decision engine of C03/C04 (real handle_srt_packet on a real shell; link states from real packets, housekeeping, clock steps, config changes, reloads through the real apply_connection_changes): for every plain data datagram in enhanced mode the link it lands on must be the scheduler's own answer for the anchor the glue should pass - its previous choice, or none after a reload removed a link; non-trivial = such a comparison with >= 2 links",
+        ctx.tier.pick(30_000, 300_000),
+        || crate::props::decide::strategy(mo2),
+        |_| |c: &crate::props::decide::Case, o: &mut Obs| crate::props::decide::check(c, o, crate::props::decide::Which::C11, ctx),
     );
     "exploration"
 }
